@@ -348,7 +348,7 @@ pub fn run(ctx: &mut Ctx) {
     if ctx.shard == 0 {
         index_domains(ctx);
     }
-    let n = ctx.budget(40_000, 2_000_000);
+    let n = ctx.budget(300_000, 4_000_000);
     let mut src = Sources::standard(n);
     src.family_each = (n / 12).max(2);
     src.three_man = n / 10;
@@ -358,7 +358,7 @@ pub fn run(ctx: &mut Ctx) {
         let p = gen::fam_mobility(&mut ctx.rng);
         stream::offer(ctx, &p, "fam_mobility", &mut exercise);
     }
-    let iters = ctx.budget(1_500_000, 80_000_000);
+    let iters = ctx.budget(12_000_000, 200_000_000);
     mobility_search(ctx, if miri { iters.min(24) } else { iters });
     ctx.feature_max("list_capacity", crate::hooks::list_cap() as u64);
     let _ = to_move;
